@@ -2,14 +2,14 @@ CONSTANTS
  Confs <- MCConfs
  FixWaitErr = FALSE
  Reduce = TRUE
- MCShapes = {"img", "idx2", "nested", "art", "artidx", "dtag"}
- MCPairs = {"tworeg", "dir2reg", "reg2dir"}
- MCOpts <- MCOptsCore
- MCFeats <- MCFeatsAll
- MCInit = "corners"
- MCTag0 = {"none", "stale", "same"}
- MCByDigest = {FALSE, TRUE}
- MCTgtByDigest = {FALSE, TRUE}
+ MCShapes = {"art", "artidx"}
+ MCPairs = {"tworeg", "reg2dir"}
+ MCOpts <- MCOptsRefs2
+ MCFeats <- MCFeatsCore
+ MCInit = "empty"
+ MCTag0 = {"none"}
+ MCByDigest = {FALSE}
+ MCTgtByDigest = {FALSE}
  MaxFaults = 0
  AllowCancel = FALSE
  AllowCrash = FALSE
